@@ -41,6 +41,10 @@ class Ob:
     group: str = ""  # for reporting
     per_path_timeout: float | None = None
     expect_known: str | None = None  # key of a known finding this strict obligation is expected to hit
+    # how far the solver reaches into the code: "symbolic" = inputs stay symbolic along every path (CrossHair / psx);
+    # "realised-input" = the code hands its input to C level at once, so the solver picks every value of a bounded input domain
+    # (one mixed-radix integer) and the body then runs concretely: bounded-exhaustive, the weakest grade
+    grade: str = "symbolic"
 
     def key(self):
         return self.name
@@ -257,6 +261,7 @@ def run_property(spec, tier: str, only: str | None = None, jobs: int = 16):
         entry = {
             "obligation": o.name,
             "group": o.group,
+            "grade": o.grade,
             "args": o.args,
             "optional": o.optional,
             "status": r["status"],
@@ -349,6 +354,10 @@ def run_property(spec, tier: str, only: str | None = None, jobs: int = 16):
             "refuted; counterexamples are replayed on the unpatched public API before being reported. "
             + getattr(spec, "CLAIM", ""),
             "obligations": n_required,
+            "obligations_by_grade": {g: sum(1 for o in obs if o.grade == g and not o.optional) for g in sorted({o.grade for o in obs})},
+            "grades": "symbolic = inputs stay symbolic along every explored path (solver for-all within the bounds); realised-input = the code "
+            "hands its input to C level at once, so the solver only enumerates a bounded input domain (one mixed-radix integer, every value "
+            "reached by forking) and each run is concrete: bounded-exhaustive checking, listed separately because it is weaker",
             "discharged": n_discharged,
             "known_finding_obligations": n_known_obs,
             "inconclusive": n_incon,
